@@ -60,7 +60,7 @@ def constants(cfg):
         lame_lambda=1.5,
         shear_modulus=1.2,
         specific_storage=0.4,
-        residual_aperture=0.1,
+        residual_aperture=float(cfg.get("ares", 0.1)),
         fracture_gap=0.02,
         friction_coefficient=0.6,
         # "rich": every optional fracture law switched on
@@ -231,8 +231,24 @@ STATE_LETTERS = {
 # where special-case code lives.
 ALIGNED_LETTERS = {"axis1": ("lin-1", 0), "axis2": ("wave-0.3", 1)}
 
+# letters with normal displacement jumps inside (-residual_aperture, 0) in most fracture
+# cells (non-converged Newton iterates under compression): the aperture law
+# max(jump + a_res, a_res) then sits on its constant branch with a positive first
+# argument. letter -> (base letter, fractions of a_res used for the negative jumps).
+# Every third cell keeps a positive jump (mixed signs across cells); all jumps stay away
+# from the kink at 0.
+NEGJUMP_LETTERS = {"negjump": ("lin-1", (-0.5, -0.8)), "negjump2": ("wave-0.3", (-0.3, -0.65))}
+
 SCALAR_VARS = ("pressure", "temperature")
 FLUX_VARS = ("interface_darcy_flux", "interface_fourier_flux", "interface_enthalpy_flux", "well_flux", "well_enthalpy_flux")
+
+
+def base_letter(letter):
+    if letter in ALIGNED_LETTERS:
+        return ALIGNED_LETTERS[letter][0]
+    if letter in NEGJUMP_LETTERS:
+        return NEGJUMP_LETTERS[letter][0]
+    return letter
 
 
 def raw_state(model, letter, salt=0):
@@ -242,7 +258,7 @@ def raw_state(model, letter, salt=0):
     :func:`contact_fill` afterwards (they decide the regime of the contact laws).
     """
     es = model.equation_system
-    ps, pf, pu, amp = STATE_LETTERS[ALIGNED_LETTERS[letter][0] if letter in ALIGNED_LETTERS else letter]
+    ps, pf, pu, amp = STATE_LETTERS[base_letter(letter)]
     x = np.array(es.get_variable_values(iterate_index=0), dtype=float)
     for iv, var in enumerate(es.variables):
         dofs = es.dofs_of([var])
@@ -282,7 +298,7 @@ REGIME_VALUES = {
 }
 
 
-def contact_fill(model, x, xprev, salt=0, axis=None):
+def contact_fill(model, x, xprev, salt=0, axis=None, neg=None):
     """Fill u_interface and contact_traction of ``x`` such that every fracture cell sits
     clearly inside one regime of the contact laws (cycling open / stick / slip /
     open-with-compressive-traction over the cells); ``xprev`` gets a different jump so
@@ -316,6 +332,12 @@ def contact_fill(model, x, xprev, salt=0, axis=None):
             un, ut, tn, tt = REGIME_VALUES[reg]
             s = 1.0 if (f + salt) % 2 == 0 else -1.0
             un = un + 0.01 * (f % 3)
+            if neg is not None and f % 3 != 2:
+                # compressed cell: jump inside (-a_res, 0); a clearly tensile traction keeps
+                # the "open" cells open although the jump is below the gap
+                un = neg[f % 2] * float(model.solid.residual_aperture)
+                if reg == "open":
+                    tn = 0.6
             ut = s * (ut + 0.01 * (f % 4))
             tt = s * tt
             if which == "prev":
@@ -482,17 +504,20 @@ def margin(ind, dilation=True):
 def make_states(model, letter, salt=0):
     """(x0, xprev): the state where the Jacobian is tested and a different state for the
     previous time step."""
-    axis = None
+    axis = neg = None
     if letter in ALIGNED_LETTERS:
         axis = ALIGNED_LETTERS[letter][1]
         salt = salt + 7 + axis
+    elif letter in NEGJUMP_LETTERS:
+        neg = NEGJUMP_LETTERS[letter][1]
+        salt = salt + 10 + list(NEGJUMP_LETTERS).index(letter)
     else:
         salt = salt + list(STATE_LETTERS).index(letter)
     x0 = raw_state(model, letter, salt)
-    base = ALIGNED_LETTERS[letter][0] if axis is not None else letter
+    base = base_letter(letter)
     prev_letter = {"wave-0.3": "lin-1", "lin-1": "wave-0.3"}.get(base, "wave-0.3")
     xp = raw_state(model, prev_letter, salt + 5)
-    x0, xp = contact_fill(model, x0, xp, salt, axis=axis)
+    x0, xp = contact_fill(model, x0, xp, salt, axis=axis, neg=neg)
     x0 = _make_admissible(model, x0)
     xp = _make_admissible(model, xp)
     return x0, xp
